@@ -112,13 +112,13 @@ package actionlint
 //@   requires [C11] forall j: int :: 0 <= j && j < len(u.cur) ==> u.cur[j] != nil
 //@   ensures [C11] forall j: int :: 0 <= j && j < len(u.cur) ==> u.cur[j] != nil
 //@   loop "range u.cur":
-//@     invariant [C11] len(u.cur) >= len(range_x) && range_x == old(u.cur) && (u.cur == range_x || fresh(u.cur))
+//@     invariant [C11] len(u.cur) >= len(range_x) && range_x == old(u.cur) && (sameorigin(u.cur, range_x) || fresh(u.cur))
 //@     invariant [C11] forall j: int :: range_i < j && j < len(range_x) ==> range_x[j] != nil
 //@     invariant [C11] forall j: int :: range_i < j && j < len(u.cur) ==> u.cur[j] != nil
 //@     invariant [C11] !compact ==> (forall j: int :: 0 <= j && j <= range_i ==> u.cur[j] != nil)
 //@   loop "range cur.Children":
 //@     invariant [C11] len(u.cur) >= len(outer_range_x) && i < len(outer_range_x) && i == outer_range_i + 1
-//@     invariant [C11] outer_range_x == old(u.cur) && (u.cur == outer_range_x || fresh(u.cur))
+//@     invariant [C11] outer_range_x == old(u.cur) && (sameorigin(u.cur, outer_range_x) || fresh(u.cur))
 //@     invariant [C11] forall j: int :: i < j && j < len(outer_range_x) ==> outer_range_x[j] != nil
 //@     invariant [C11] forall j: int :: i < j && j < len(u.cur) ==> u.cur[j] != nil
 //@     invariant [C11] !compact ==> (forall j: int :: 0 <= j && j < i ==> u.cur[j] != nil)
